@@ -1,5 +1,5 @@
 """Run-level trace validation shared by the properties judged on recorded runs (built incrementally)."""
 
 
-def run_for(chk, pid):
+def run_for(chk, pid, sc=None):
     return
